@@ -13,6 +13,15 @@ func Exec(prop string, raw json.RawMessage) (*evid.Violation, error) {
 	if err := json.Unmarshal(raw, &c); err != nil {
 		return nil, err
 	}
+	for i := 0; i < c.Warm; i++ {
+		cc := cloneCase(&c)
+		switch {
+		case prop == "C17" && c.Sched != nil:
+			execute(cc, newReplay(c.Sched), false, false)
+		default:
+			execute(cc, nil, false, false)
+		}
+	}
 	rc := &refCache{m: map[uint64]*refResult{}}
 	var vs []verdict
 	switch prop {
